@@ -34,7 +34,7 @@ Definition le_next (a b : entry) : Prop := e_next a <= e_next b.
 Lemma insert_perm : forall e l, Permutation (insert_entry e l) (e :: l).
 Proof.
   intros e l. induction l as [|x l IH]; simpl; [apply Permutation_refl|].
-  destruct (e_next e <? e_next x); [apply Permutation_refl|].
+  destruct (e_next e <=? e_next x); [apply Permutation_refl|].
   eapply Permutation_trans; [apply perm_skip, IH | apply perm_swap].
 Qed.
 
@@ -48,11 +48,11 @@ Lemma insert_sorted : forall e l, StronglySorted le_next l -> StronglySorted le_
 Proof.
   intros e l H. induction H as [|x l Hs IH Hx]; simpl.
   - constructor; constructor.
-  - destruct (e_next e <? e_next x) eqn:E.
-    + apply Z.ltb_lt in E. constructor; [constructor; assumption|].
+  - destruct (e_next e <=? e_next x) eqn:E.
+    + apply Z.leb_le in E. constructor; [constructor; assumption|].
       constructor; [unfold le_next; lia|].
       eapply Forall_impl; [|exact Hx]. intros a Ha. unfold le_next in *. lia.
-    + apply Z.ltb_ge in E. constructor; [assumption|].
+    + apply Z.leb_gt in E. constructor; [assumption|].
       eapply Permutation_Forall; [apply Permutation_sym, insert_perm|].
       constructor; [unfold le_next; lia | assumption].
 Qed.
@@ -62,16 +62,19 @@ Proof. induction l as [|e l IH]; simpl; [constructor | apply insert_sorted; assu
 
 Definition due_entry (m : Z) (e : entry) : bool := e_next e <=? m.
 
+Lemma filter_nil : forall {A} (p : A -> bool) l, (forall x, In x l -> p x = false) -> filter p l = [].
+Proof.
+  intros A p l H. induction l as [|x l IH]; simpl; [reflexivity|].
+  rewrite (H x (or_introl eq_refl)). apply IH. intros y Hy. apply H. right. assumption.
+Qed.
+
 Lemma take_due_sorted : forall m l, StronglySorted le_next l -> take_due m l = filter (due_entry m) l.
 Proof.
   intros m l H. induction H as [|x l Hs IH Hx]; simpl; [reflexivity|].
   unfold due_entry at 1. destruct (m <? e_next x) eqn:E.
   - apply Z.ltb_lt in E. replace (e_next x <=? m) with false by (symmetry; apply Z.leb_gt; lia).
-    symmetry. apply (proj2 (Forall_forall _ _)) with (l := l) in Hx as Hx'; [|intros; assumption].
-    clear IH. induction l as [|y l IHl]; simpl; [reflexivity|].
-    inversion Hx as [|? ? Hy Hl]; subst. inversion Hs; subst.
-    unfold due_entry at 1. replace (e_next y <=? m) with false by (symmetry; apply Z.leb_gt; unfold le_next in Hy; lia).
-    apply IHl; try assumption. eapply Forall_impl; [|exact Hl]. auto.
+    symmetry. apply filter_nil. intros y Hy. rewrite Forall_forall in Hx. specialize (Hx y Hy).
+    unfold due_entry, le_next in *. apply Z.leb_gt. lia.
   - apply Z.ltb_ge in E. replace (e_next x <=? m) with true by (symmetry; apply Z.leb_le; lia).
     rewrite IH. reflexivity.
 Qed.
@@ -137,44 +140,60 @@ Definition start_pass (s : state) (m : Z) (f : string) (sp : spec) : bool :=
   due sp m && start_guard (status_of s f) (next_time sp (60 * m - 1)).
 Definition stop_pass (s : state) (m : Z) (f : string) (sp : spec) : bool := due sp m && stop_guard (status_of s f).
 
+Lemma kind_calls_nil : forall s m k f, kind_calls s m k f [] = [].
+Proof. reflexivity. Qed.
+
+Lemma kind_calls_cons : forall s m k f sp sps,
+  kind_calls s m k f (sp :: sps) =
+  (if due sp m then invoke s {| e_next := next_time sp (60 * m - 1); e_kind := k; e_file := f |} else []) ++ kind_calls s m k f sps.
+Proof.
+  intros. unfold kind_calls. cbn [map filter]. unfold due_entry at 1. cbn [e_next]. unfold due.
+  destruct (next_time sp (60 * m - 1) <=? m); cbn [flat_map app]; reflexivity.
+Qed.
+
+Lemma count_single : forall c d, count c [d] = if call_eq_dec c d then 1%nat else 0%nat.
+Proof.
+  intros. unfold count. cbn [count_occ]. destruct (call_eq_dec d c), (call_eq_dec c d); congruence.
+Qed.
+
+Lemma count_nil : forall c, count c [] = 0%nat.
+Proof. reflexivity. Qed.
+
 Lemma kind_calls_start : forall s m f sps c,
   count c (kind_calls s m KStart f sps) =
   if call_eq_dec c (CStart f) then List.length (filter (start_pass s m f) sps) else 0%nat.
 Proof.
-  intros s m f sps c. unfold kind_calls. induction sps as [|sp sps IH]; simpl.
-  - destruct (call_eq_dec c (CStart f)); reflexivity.
-  - unfold due_entry at 1. simpl e_next. unfold start_pass at 1, due.
-    destruct (next_time sp (60 * m - 1) <=? m); simpl; [|exact IH].
-    rewrite count_app, IH, invoke_start.
-    destruct (start_guard (status_of s f) (next_time sp (60 * m - 1))); simpl.
-    + unfold count. simpl. destruct (call_eq_dec (CStart f) c) as [E|N]; destruct (call_eq_dec c (CStart f)) as [E'|N']; try congruence; reflexivity.
-    + destruct (call_eq_dec c (CStart f)); reflexivity.
+  intros s m f sps c. induction sps as [|sp sps IH].
+  - rewrite kind_calls_nil. destruct (call_eq_dec c (CStart f)); reflexivity.
+  - rewrite kind_calls_cons, count_app, IH, invoke_start. cbn [filter]. unfold start_pass at 2.
+    destruct (due sp m); cbn [andb]; [|rewrite count_nil; reflexivity].
+    destruct (start_guard (status_of s f) (next_time sp (60 * m - 1))).
+    + rewrite count_single. destruct (call_eq_dec c (CStart f)); reflexivity.
+    + rewrite count_nil. reflexivity.
 Qed.
 
 Lemma kind_calls_stop : forall s m f sps c,
   count c (kind_calls s m KStop f sps) =
   if call_eq_dec c (CStop f) then List.length (filter (stop_pass s m f) sps) else 0%nat.
 Proof.
-  intros s m f sps c. unfold kind_calls. induction sps as [|sp sps IH]; simpl.
-  - destruct (call_eq_dec c (CStop f)); reflexivity.
-  - unfold due_entry at 1. simpl e_next. unfold stop_pass at 1, due.
-    destruct (next_time sp (60 * m - 1) <=? m); simpl; [|exact IH].
-    rewrite count_app, IH, invoke_stop.
-    destruct (stop_guard (status_of s f)); simpl.
-    + unfold count. simpl. destruct (call_eq_dec (CStop f) c) as [E|N]; destruct (call_eq_dec c (CStop f)) as [E'|N']; try congruence; reflexivity.
-    + destruct (call_eq_dec c (CStop f)); reflexivity.
+  intros s m f sps c. induction sps as [|sp sps IH].
+  - rewrite kind_calls_nil. destruct (call_eq_dec c (CStop f)); reflexivity.
+  - rewrite kind_calls_cons, count_app, IH, invoke_stop. cbn [filter]. unfold stop_pass at 2.
+    destruct (due sp m); cbn [andb]; [|rewrite count_nil; reflexivity].
+    destruct (stop_guard (status_of s f)).
+    + rewrite count_single. destruct (call_eq_dec c (CStop f)); reflexivity.
+    + rewrite count_nil. reflexivity.
 Qed.
 
 Lemma kind_calls_restart : forall s m f sps c,
   count c (kind_calls s m KRestart f sps) =
   if call_eq_dec c (CRestart f) then List.length (filter (fun sp => due sp m) sps) else 0%nat.
 Proof.
-  intros s m f sps c. unfold kind_calls. induction sps as [|sp sps IH]; simpl.
-  - destruct (call_eq_dec c (CRestart f)); reflexivity.
-  - unfold due_entry at 1. simpl e_next. unfold due at 1.
-    destruct (next_time sp (60 * m - 1) <=? m); simpl; [|exact IH].
-    rewrite count_app, IH, invoke_restart.
-    unfold count. simpl. destruct (call_eq_dec (CRestart f) c) as [E|N]; destruct (call_eq_dec c (CRestart f)) as [E'|N']; try congruence; reflexivity.
+  intros s m f sps c. induction sps as [|sp sps IH].
+  - rewrite kind_calls_nil. destruct (call_eq_dec c (CRestart f)); reflexivity.
+  - rewrite kind_calls_cons, count_app, IH, invoke_restart. cbn [filter].
+    destruct (due sp m); [|rewrite count_nil; reflexivity].
+    rewrite count_single. destruct (call_eq_dec c (CRestart f)); reflexivity.
 Qed.
 
 (* the calls of one file *)
@@ -192,13 +211,18 @@ Definition file_count (s : state) (m : Z) (f : string) (e : sched3) (c : call) :
   | CRestart g => if String.eqb g f then List.length (filter (fun sp => due sp m) (restarts e)) else 0
   end%nat.
 
+Lemma dec_if_same : forall c {A} (a b : A), (if call_eq_dec c c then a else b) = a.
+Proof. intros. destruct (call_eq_dec c c); congruence. Qed.
+Lemma dec_if_diff : forall c d {A} (a b : A), c <> d -> (if call_eq_dec c d then a else b) = b.
+Proof. intros. destruct (call_eq_dec c d); congruence. Qed.
+
 Lemma file_calls_count : forall s m f e c, count c (file_calls s m f e) = file_count s m f e c.
 Proof.
   intros. rewrite file_calls_split, !count_app, kind_calls_start, kind_calls_stop, kind_calls_restart.
-  unfold file_count. destruct c as [g|g|g];
-    repeat match goal with |- context [call_eq_dec ?a ?b] => destruct (call_eq_dec a b) as [E|N] end;
-    try discriminate; try (injection E as ->; rewrite String.eqb_refl; lia);
-    destruct (String.eqb g f) eqn:Eg; try lia; apply String.eqb_eq in Eg; subst; congruence.
+  unfold file_count.
+  destruct c as [g|g|g]; (destruct (String.eqb g f) eqn:Eg;
+    [apply String.eqb_eq in Eg; subst g; rewrite dec_if_same, !dec_if_diff by discriminate; lia
+    |apply String.eqb_neq in Eg; rewrite !dec_if_diff by congruence; reflexivity]).
 Qed.
 
 Lemma all_calls_files : forall s m,
